@@ -101,10 +101,16 @@ def concretise(e, sid, k):
             kk = 3                   # stream-level on an h2c connection: the cut is a frame boundary
         if fault == "garbage" and at in ("posthdr", "midbody"):
             kk = k                   # odd k: the garbage arrives after sozu relayed the head
+        off = None
+        if fault == "garbage" and e["back"] == "h2" and at == "midhdr":
+            off = 1 + 3 * (k % 3)    # inside the 9-byte frame header: inside a payload the bytes would be header data
         if at == "between":
             between = True
         framing = r["framing"]
-        reqs.append({"route": route, "framing": framing, "body": body, "fault": fault, "at": at, "k": kk})
+        rq = {"route": route, "framing": framing, "body": body, "fault": fault, "at": at, "k": kk}
+        if off is not None:
+            rq["off"] = off
+        reqs.append(rq)
     mode = e["mode"]
     if mode == "seq" and between and len(reqs) > 1:
         mode = "seqgap"
